@@ -39,6 +39,11 @@ def run(chk: Check) -> None:
               and {"pixee:python/url-sandbox", "pixee:python/sandbox-process-creation"} <= set(v["queue"])]
     shared.sort(key=runspace.vkey)
     sample += [v for v in shared if v not in sample][: chk.pick(10, 80)]
+    # a manifest that is also a source with a trigger: an earlier codemod adds the dependency to setup.py, a later one rewrites it
+    stp = [v for v in vectors if v["manifest"] == "setuppy-trigger" and v["layout"] == "lf" and "pixee:python/use-set-literal" in v["queue"]
+           and v["queue"][-1] == "pixee:python/use-set-literal" and len(v["queue"]) == 2]
+    stp.sort(key=runspace.vkey)
+    sample += [v for v in stp if v not in sample][: chk.pick(6, 60)]
     scenarios = []
     for i, v in enumerate(sample):
         steps = [{"argv": runspace.argv_for(v), "keep_after": True}]
@@ -46,6 +51,17 @@ def run(chk: Check) -> None:
             one = dict(v, queue=[c])
             steps.append({"argv": runspace.argv_for(one), "fresh": k == 0, "keep_after": k == len(v["queue"]) - 1})
         scenarios.append(runspace.scenario_for(v, f"C09-{i}", steps, extra_copies=1))
+    # rule-detected codemods over files in directories the rule engine skips by default when it walks a directory
+    # itself (vendor/, build/, ...): batch and chain must agree; run from a working directory above the project
+    trig = "import requests\nimport random\n\nrequests.get(u, verify=False)\nx = random.random()\n"
+    ign_files = {"main.py": trig, "vendor/lib.py": trig, "build/gen.py": trig, "third_party/x/y.py": trig}
+    for i, q in enumerate((["pixee:python/requests-verify", "pixee:python/secure-random"], ["pixee:python/secure-random", "pixee:python/requests-verify"])):
+        v = {"program": "ignored-dirs", "layout": "lf", "manifest": "none", "queue": q, "dryRun": False, "workers": 1}
+        inc = ["{dir}", "--output", "{out}", "--codemod-include"]
+        steps = [{"argv": inc + [",".join(q)], "keep_after": True, "cwd": "{work}"}]
+        for k, c in enumerate(q):
+            steps.append({"argv": inc + [c], "fresh": k == 0, "keep_after": k == len(q) - 1, "cwd": "{work}"})
+        scenarios.append({"id": f"C09-ign{i}", "files": ign_files, "steps": steps, "_v": v})
     if not chk.quick:
         # the whole default selection over a project holding every program, against the chain of the same codemods
         files = {f"{name}/app.py": text for name, text in space.PROGRAMS.items()}
